@@ -34,6 +34,7 @@ type vScenario struct {
 }
 
 type vCtx struct {
+	history  []map[string]any
 	t        *testing.T
 	client   *ent.Client
 	realBase time.Time
@@ -72,13 +73,25 @@ func vInt(x any) int64 {
 	return 0
 }
 
-func vUUIDs(x any) []uuid.UUID {
+// ids are literal uuids or references "$<op index>.<k>" to the k-th delivery returned by an earlier pull
+func (v *vCtx) vUUIDs(x any) []uuid.UUID {
 	var out []uuid.UUID
 	if x == nil {
 		return out
 	}
 	for _, s := range x.([]any) {
-		out = append(out, uuid.MustParse(s.(string)))
+		str := s.(string)
+		if strings.HasPrefix(str, "$") {
+			var oi, k int
+			fmt.Sscanf(str, "$%d.%d", &oi, &k)
+			r, _ := v.history[oi]["result"].(map[string]any)
+			ds, _ := r["deliveries"].([]map[string]any)
+			if k < len(ds) {
+				out = append(out, uuid.MustParse(ds[k]["id"].(string)))
+			}
+			continue
+		}
+		out = append(out, uuid.MustParse(str))
 	}
 	return out
 }
@@ -263,13 +276,13 @@ func (v *vCtx) runOp(ctx context.Context, op map[string]any) (res map[string]any
 	}
 	switch op["op"] {
 	case "ack":
-		a := actions.NewAckDeliveries(vUUIDs(op["ids"])...)
+		a := actions.NewAckDeliveries(v.vUUIDs(op["ids"])...)
 		act, results = a, func() any { r, _ := a.Results(); return r }
 	case "nack":
-		a := actions.NewNackDeliveries(vUUIDs(op["ids"])...)
+		a := actions.NewNackDeliveries(v.vUUIDs(op["ids"])...)
 		act, results = a, func() any { r, _ := a.Results(); return r }
 	case "delay":
-		a := actions.NewDelayDeliveries(actions.DelayDeliveriesParams{IDs: vUUIDs(op["ids"]), Delay: time.Duration(vInt(op["delay"]))})
+		a := actions.NewDelayDeliveries(actions.DelayDeliveriesParams{IDs: v.vUUIDs(op["ids"]), Delay: time.Duration(vInt(op["delay"]))})
 		act, results = a, func() any { r, _ := a.Results(); return r }
 	case "publish":
 		a := actions.NewPublishMessage(actions.PublishMessageParams{TopicName: optStr(op["topic_name"]), TopicID: optUUID(op["topic_id"]),
@@ -373,6 +386,9 @@ func (v *vCtx) runOp(ctx context.Context, op map[string]any) (res map[string]any
 	case "delete_expired_subscriptions":
 		a := actions.NewDeleteExpiredSubscriptions(prune())
 		act, results = a, func() any { r, _ := a.Results(); return r }
+	case "dump":
+		res["state"] = v.dump(ctx)
+		return
 	case "shift":
 		// advance the clock by delta: move every stored timestamp back
 		d := time.Duration(vInt(op["delta"]))
@@ -536,7 +552,9 @@ func TestVerifReplay(t *testing.T) {
 			out := map[string]any{"pre": v.dump(ctx)}
 			var results []map[string]any
 			for _, op := range sc.Ops {
-				results = append(results, v.runOp(ctx, op))
+				r := v.runOp(ctx, op)
+				v.history = append(v.history, r)
+				results = append(results, r)
 			}
 			out["results"] = results
 			out["post"] = v.dump(ctx)
